@@ -19,6 +19,11 @@ const (
 	AmbBatchSize
 	AmbTimeout
 	AmbAll = 1<<iota - 1
+	// AmbNils (not part of AmbAll: opt-in): every optional callback is first
+	// set to an explicit nil - an application passing through its own unset
+	// optional configuration.  A nil callback is "not set"; options that
+	// follow in the list override it.
+	AmbNils = 1 << 12
 )
 
 type nopObs struct{}
@@ -38,6 +43,12 @@ func (nopObs) OnPersistComplete(context.Context, time.Duration, error) {}
 // hooks, a memory store, handlers for panics and persistence errors, ...).
 func Ambient(mask int) []eventbus.Option {
 	var opts []eventbus.Option
+	if mask&AmbNils != 0 {
+		opts = append(opts, eventbus.WithPanicHandler(nil), eventbus.WithPersistenceErrorHandler(nil),
+			eventbus.WithBeforePublish(nil), eventbus.WithAfterPublish(nil),
+			eventbus.WithBeforePublishContext(nil), eventbus.WithAfterPublishContext(nil),
+			eventbus.WithObservability(nil), eventbus.WithUpcastErrorHandler(nil))
+	}
 	if mask&AmbObs != 0 {
 		opts = append(opts, eventbus.WithObservability(nopObs{}))
 	}
